@@ -648,6 +648,93 @@ def parseIterateHeader (env : Env) : P (Nat × Nat × Nat) := do
   expect IDCloseParen
   pure (length, advance, unroll)
 
+/-- the `choose` statement of `parseStatement1` (the keyword is at the front). -/
+def parseChooseStmt (env : Env) : P Node := do
+  skip
+  if (← get).funcEffect == 0 then failHere
+  let name ← parseIdent env
+  expect IDEq
+  expect IDOpenBracket
+  let args ← parseList env IDCloseBracket (do
+    let id ← parseIdent env
+    pure (newExpr 0 0 id .nil .nil .nil []))
+  pure (.mk KChoose 0 0 0 name 0 .nil .nil .nil args [] [])
+
+/-- one `, name: expr` argument of an io_bind / io_limit header. -/
+def parseIOManipArg (name : Nat) (pe : P Node) : P Node := do
+  expect IDComma
+  expect name
+  expect IDColon
+  let a ← pe
+  if effectOf a != 0 then failHere
+  pure a
+
+/-- `parseIOManipNode` (`x` is the keyword at the front). -/
+def parseIOManipNode (x : Nat) (pe : P Node) (pblock : P (List Node)) : P Node := do
+  skip
+  expect IDOpenParen
+  expect IDIO
+  expect IDColon
+  let io ← pe
+  if effectOf io != 0 then failHere
+  if x == IDIOBind && io.id0 != 0 then failHere
+  if x == IDIOLimit && io.id0 != 0 && isArgsDotFoo io == 0 then failHere
+  let arg1 ← (if x == IDIOBind then parseIOManipArg IDData pe
+    else if x == IDIOLimit then parseIOManipArg IDLimit pe else pure .nil)
+  let histPos ← (if x == IDIOBind then parseIOManipArg IDHistoryPosition pe else pure .nil)
+  expect IDCloseParen
+  let body ← pblock
+  pure (.mk KIOManip 0 x 0 0 0 io arg1 histPos [] [] body)
+
+/-- `return` / `yield?`. -/
+def parseRetNode (env : Env) (x : Nat) (pe : P Node) : P Node := do
+  skip
+  (if x == IDYield then do
+      if !effCoroutine (← get).funcEffect then failHere
+      if (← peek1) != IDQuestion then failHere
+      skip
+    else pure ())
+  let value ← pe
+  if effImpure (effectOf value) then failHere
+  if x == IDReturn && value.id0 == 0 &&
+      (match (env.tm.byIDStr value.id2).toList with
+       | '"' :: '$' :: _ => true
+       | _ => false) then failHere
+  pure (.mk KRet 0 x 0 0 0 value .nil .nil [] [] [])
+
+/-- the `.label` that closes a labelled while loop. -/
+def parseEndLabel (label : Nat) : P Unit := do
+  if label != 0 then
+    if (← peek1) == IDDot then do
+      skip
+      if (← peek1) == label then skip else failHere
+    else failHere
+
+/-- `while`. -/
+def parseWhileNode (env : Env) (pe : P Node) (pblock : Bool → P (List Node)) : P Node := do
+  skip
+  let label ← parseLabel env
+  let condition ← pe
+  if effectOf condition != 0 then failHere
+  let asserts ← parseAsserts env pe
+  if !(← loopsPush label) then failHere
+  let doubleCurly := (← peek1) == IDOpenDoubleCurly
+  let isWhileTrue := condition.id0 == 0 && condition.id2 == IDTrue
+  if doubleCurly && !isWhileTrue then failHere
+  let body ← pblock doubleCurly
+  let ent ← loopsPop
+  parseEndLabel label
+  if doubleCurly && (hasFlag ent.flags FlagsHasContinue || !terminatesList 1000000 body) then failHere
+  pure (.mk KWhile ent.flags 0 label 0 0 .nil condition .nil [] asserts body)
+
+/-- `parseIterateNode`. -/
+def parseIterateNode (env : Env) (pe : P Node) (piter : Nat → List Node → P Node) : P Node := do
+  if effCoroutine (← get).funcEffect then failHere
+  skip
+  let label ← parseLabel env
+  let assigns ← parseList env IDCloseParen (parseIterateAssignNode env pe)
+  piter label assigns
+
 def closerOf (doubleCurly : Bool) : Nat := if doubleCurly then IDCloseDoubleCurly else IDCloseCurly
 
 /-- the statement loop of `parseBlock`. -/
@@ -705,90 +792,14 @@ def pStatement1 (env : Env) (e t b : Nat) : P Node := do
     modify fun s => { s with allowVar := false }
     if x == IDAssert then parseAssertNode env (pExpr env e t b)
     else if x == IDBreak || x == IDContinue then parseJump env x
-    else if x == IDChoose then do
-      skip
-      if (← get).funcEffect == 0 then failHere
-      let name ← parseIdent env
-      expect IDEq
-      expect IDOpenBracket
-      let args ← parseList env IDCloseBracket (do
-        let id ← parseIdent env
-        pure (newExpr 0 0 id .nil .nil .nil []))
-      pure (.mk KChoose 0 0 0 name 0 .nil .nil .nil args [] [])
-    else if x == IDIOBind || x == IDIOForgetHistory || x == IDIOLimit then do
-      -- parseIOManipNode
-      skip
-      expect IDOpenParen
-      expect IDIO
-      expect IDColon
-      let io ← pExpr env e t b
-      if effectOf io != 0 then failHere
-      let arg1Name :=
-        if x == IDIOBind then IDData else if x == IDIOLimit then IDLimit else 0
-      if x == IDIOBind && io.id0 != 0 then failHere
-      if x == IDIOLimit && io.id0 != 0 && isArgsDotFoo io == 0 then failHere
-      let arg1 ← if arg1Name != 0 then do
-          expect IDComma
-          expect arg1Name
-          expect IDColon
-          let a ← pExpr env e t b
-          if effectOf a != 0 then failHere
-          pure a
-        else pure .nil
-      let histPos ← if x == IDIOBind then do
-          expect IDComma
-          expect IDHistoryPosition
-          expect IDColon
-          let h ← pExpr env e t b
-          if effectOf h != 0 then failHere
-          pure h
-        else pure .nil
-      expect IDCloseParen
-      let body ← pBlock env e t b false
-      pure (.mk KIOManip 0 x 0 0 0 io arg1 histPos [] [] body)
+    else if x == IDChoose then parseChooseStmt env
+    else if x == IDIOBind || x == IDIOForgetHistory || x == IDIOLimit then
+      parseIOManipNode x (pExpr env e t b) (pBlock env e t b false)
     else if x == IDIf then pIf env e t b
-    else if x == IDIterate then do
-      -- parseIterateNode
-      if effCoroutine (← get).funcEffect then failHere
-      skip
-      let label ← parseLabel env
-      let assigns ← parseList env IDCloseParen (parseIterateAssignNode env (pExpr env e t b))
-      pIterateBlock env e t b label assigns
-    else if x == IDReturn || x == IDYield then do
-      skip
-      if x == IDYield then do
-        if !effCoroutine (← get).funcEffect then failHere
-        if (← peek1) != IDQuestion then failHere
-        skip
-      let value ← pExpr env e t b
-      if effImpure (effectOf value) then failHere
-      if x == IDReturn && value.id0 == 0 then
-        match (env.tm.byIDStr value.id2).toList with
-        | '"' :: '$' :: _ => failHere
-        | _ => pure ()
-      pure (.mk KRet 0 x 0 0 0 value .nil .nil [] [] [])
-    else if x == IDWhile then do
-      skip
-      let label ← parseLabel env
-      let condition ← pExpr env e t b
-      if effectOf condition != 0 then failHere
-      let asserts ← parseAsserts env (pExpr env e t b)
-      if !(← loopsPush label) then failHere
-      let doubleCurly := (← peek1) == IDOpenDoubleCurly
-      let isWhileTrue := condition.id0 == 0 && condition.id2 == IDTrue
-      if doubleCurly && !isWhileTrue then failHere
-      let body ← pBlock env e t b doubleCurly
-      let ent ← loopsPop
-      if label != 0 then do
-        if (← peek1) == IDDot then do
-          skip
-          if (← peek1) == label then skip else failHere
-        else failHere
-      let n := Node.mk KWhile ent.flags 0 label 0 0 .nil condition .nil [] asserts body
-      if doubleCurly then
-        if hasFlag ent.flags FlagsHasContinue then failHere
-        else if !terminatesList 1000000 body then failHere
-      pure n
+    else if x == IDIterate then
+      parseIterateNode env (pExpr env e t b) (fun label assigns => pIterateBlock env e t b label assigns)
+    else if x == IDReturn || x == IDYield then parseRetNode env x (pExpr env e t b)
+    else if x == IDWhile then parseWhileNode env (pExpr env e t b) (fun dc => pBlock env e t b dc)
     else parseAssignNode env (pExpr env e t b)
 termination_by 16 * b + 13
 decreasing_by all_goals omega
@@ -861,104 +872,116 @@ def parseExtraFieldNode (env : Env) (e t b : Nat) : P Node := do
 
 def semicolon : P Unit := expect IDSemicolon
 
+/-- `use "path"` (after the keyword). -/
+def parseUseDecl (env : Env) (line : Nat) : P Node := do
+  let path ← peek1
+  if !isDQStrLiteral env.tm path then failHere
+  skip
+  semicolon
+  pure (.mk KUse 0 0 0 path line .nil .nil .nil [] [] [])
+
+/-- `const NAME : type = value` (after the keyword). -/
+def parseConstDecl (env : Env) (e t b : Nat) (flags0 line : Nat) : P Node := do
+  let id ← parseIdent env
+  if !validConstName (env.tm.byIDStr id) then failHere
+  expect IDColon
+  let typ ← pTypeExpr env e t b
+  if (← peek1) != IDEq then failHere
+  skip
+  let value ← pPossibleList env e t b
+  semicolon
+  pure (.mk KConst flags0 0 0 id line typ .nil value [] [] [])
+
+/-- the `, choosy` / assertion-chain part of a func declaration: returns (flags, asserts). -/
+def parseFuncAsserts (env : Env) (pe : P Node) (flags eff id0 : Nat) : P (Nat × List Node) := do
+  if (← peek1) == IDComma then do
+    skip
+    let flags ← (if (← peek1) == IDChoosy then do
+        skip
+        if hasFlag flags FlagsPublic then failHere
+        if effCoroutine eff then failHere
+        if id0 == 0 then failHere
+        (if (← peek1) != IDOpenCurly then expect IDComma else pure ())
+        pure (flags ||| FlagsChoosy)
+      else pure flags : P Nat)
+    let asserts ← parseList env IDOpenCurly (parseAssertNode env pe)
+    assertsSorted asserts true
+    -- every `choose` in the chain must be a `choose cpu_arch >= …`
+    if asserts.any (fun o => o.id0 == IDChoose && !isChooseCPUArch o) then failHere
+    let fl := if asserts.any (fun o => o.id0 == IDChoose) then flags ||| FlagsHasChooseCPUArch else flags
+    pure (fl, asserts)
+  else pure (flags, [])
+
+/-- `func recv.name!(args) out, asserts { body }` (after the keyword). -/
+def parseFuncDecl (env : Env) (e t b : Nat) (flags0 line : Nat) : P Node := do
+  let (id0, id1) ← parseQualifiedIdent env
+  if !env.opts.allowBuiltInNames && (id1 == IDInitialize || id1 == IDReset) then failHere
+  if !env.opts.allowDoubleUnderscoreNames && containsDoubleUnderscore (env.tm.byIDStr id1) then failHere
+  let eff ← parseEffect
+  modify fun s => { s with funcEffect := eff }
+  if effCoroutine eff && id0 == 0 then failHere
+  let argFields ← parseList env IDCloseParen (parseFieldNode1 env e t b 0)
+  let x ← peek1
+  let out ← (if x != IDOpenCurly && x != IDComma then pTypeExpr env e t b else pure .nil)
+  let (flags, asserts) ← parseFuncAsserts env (pExpr env e t b) (flags0 ||| eff) eff id0
+  modify fun s => { s with allowVar := true }
+  let body ← pBlock env e t b false
+  modify fun s => { s with allowVar := false }
+  semicolon
+  if hasFlag flags FlagsHasChooseCPUArch && (hasFlag flags FlagsPublic || hasFlag flags FlagsChoosy) then failHere
+  modify fun s => { s with funcEffect := 0 }
+  let inn := Node.mk KStruct 0 0 0 IDArgs line .nil .nil .nil [] argFields []
+  pure (.mk KFunc flags id1 0 id0 line inn .nil out [] asserts body)
+
+/-- `status "#message"` (after the keyword). -/
+def parseStatusDecl (env : Env) (flags0 line : Nat) : P Node := do
+  let message ← peek1
+  if !isDQStrLiteral env.tm message then failHere
+  if !isStatusMessageTok (env.tm.byIDStr message) then failHere
+  skip
+  semicolon
+  pure (.mk KStatus flags0 0 0 message line .nil .nil .nil [] [] [])
+
+/-- `struct name? implements … (fields) + (extra fields)` (after the keyword). -/
+def parseStructDecl (env : Env) (e t b : Nat) (flags0 line : Nat) : P Node := do
+  let name ← parseIdent env
+  if !env.opts.allowDoubleUnderscoreNames && containsDoubleUnderscore (env.tm.byIDStr name) then failHere
+  let flags ← (if (← peek1) == IDQuestion then do skip; pure (flags0 ||| FlagsClassy) else pure flags0 : P Nat)
+  let implements ← (if (← peek1) == IDImplements then do
+      skip
+      let l ← parseList env IDOpenParen (do
+        let (pkg, nm) ← parseQualifiedIdent env
+        pure (newTypeExpr 0 pkg nm .nil .nil .nil))
+      if l.length > MaxImplements then failHere
+      pure l
+    else pure [] : P (List Node))
+  let fields ← parseList env IDCloseParen (parseFieldNode1 env e t b 0)
+  let fields ← (if (← peek1) == IDPlus then do
+      skip
+      if (← peek1) != IDOpenParen then failHere
+      let extra ← parseList env IDCloseParen (parseExtraFieldNode env e t b)
+      pure (fields ++ extra)
+    else pure fields : P (List Node))
+  semicolon
+  pure (.mk KStruct flags 0 0 name line .nil .nil .nil implements fields [])
+
+/-- what follows `pub` / `pri`. -/
+def parseVisibleDecl (env : Env) (e t b : Nat) (flags0 line : Nat) : P Node := do
+  let k2 ← peek1
+  if k2 == IDConst then do skip; parseConstDecl env e t b flags0 line
+  else if k2 == IDFunc then do skip; parseFuncDecl env e t b flags0 line
+  else if k2 == IDStatus then do skip; parseStatusDecl env flags0 line
+  else if k2 == IDStruct then do skip; parseStructDecl env e t b flags0 line
+  else throw (.at line)
+
 /-- `parseTopLevelDecl` (the caller guarantees a non-empty source). -/
 def parseTopLevelDecl (env : Env) (e t b : Nat) : P Node := do
   let line ← curLine
   let k ← peek1
-  let failAtLine : P Node := throw (.at line)
-  if k == IDUse then do
-    skip
-    let path ← peek1
-    if !isDQStrLiteral env.tm path then failHere
-    skip
-    semicolon
-    pure (.mk KUse 0 0 0 path line .nil .nil .nil [] [] [])
-  else if k == IDPub || k == IDPri then do
-    let flags0 := if k == IDPub then FlagsPublic else 0
-    skip
-    let k2 ← peek1
-    if k2 == IDConst then do
-      skip
-      let id ← parseIdent env
-      if !validConstName (env.tm.byIDStr id) then failHere
-      expect IDColon
-      let typ ← pTypeExpr env e t b
-      if (← peek1) != IDEq then failHere
-      skip
-      let value ← pPossibleList env e t b
-      semicolon
-      pure (.mk KConst flags0 0 0 id line typ .nil value [] [] [])
-    else if k2 == IDFunc then do
-      skip
-      let (id0, id1) ← parseQualifiedIdent env
-      if !env.opts.allowBuiltInNames && (id1 == IDInitialize || id1 == IDReset) then failHere
-      if !env.opts.allowDoubleUnderscoreNames && containsDoubleUnderscore (env.tm.byIDStr id1) then failHere
-      let eff ← parseEffect
-      modify fun s => { s with funcEffect := eff }
-      if effCoroutine eff && id0 == 0 then failHere
-      let flags := flags0 ||| eff
-      let argFields ← parseList env IDCloseParen (parseFieldNode1 env e t b 0)
-      let x ← peek1
-      let out ← if x != IDOpenCurly && x != IDComma then pTypeExpr env e t b else pure .nil
-      let (flags, asserts) ← if (← peek1) == IDComma then do
-          skip
-          let flags ← if (← peek1) == IDChoosy then do
-              skip
-              if hasFlag flags FlagsPublic then failHere
-              if effCoroutine eff then failHere
-              if id0 == 0 then failHere
-              if (← peek1) != IDOpenCurly then expect IDComma
-              pure (flags ||| FlagsChoosy)
-            else pure flags
-          let asserts ← parseList env IDOpenCurly (parseAssertNode env (pExpr env e t b))
-          assertsSorted asserts true
-          -- every `choose` in the chain must be a `choose cpu_arch >= …`
-          if asserts.any (fun o => o.id0 == IDChoose && !isChooseCPUArch o) then failHere
-          let fl := if asserts.any (fun o => o.id0 == IDChoose) then flags ||| FlagsHasChooseCPUArch else flags
-          pure (fl, asserts)
-        else pure (flags, [])
-      modify fun s => { s with allowVar := true }
-      let body ← pBlock env e t b false
-      modify fun s => { s with allowVar := false }
-      semicolon
-      if hasFlag flags FlagsHasChooseCPUArch then do
-        if hasFlag flags FlagsPublic then failHere
-        if hasFlag flags FlagsChoosy then failHere
-      modify fun s => { s with funcEffect := 0 }
-      let inn := Node.mk KStruct 0 0 0 IDArgs line .nil .nil .nil [] argFields []
-      pure (.mk KFunc flags id1 0 id0 line inn .nil out [] asserts body)
-    else if k2 == IDStatus then do
-      skip
-      let message ← peek1
-      if !isDQStrLiteral env.tm message then failHere
-      if !isStatusMessageTok (env.tm.byIDStr message) then failHere
-      skip
-      semicolon
-      pure (.mk KStatus flags0 0 0 message line .nil .nil .nil [] [] [])
-    else if k2 == IDStruct then do
-      skip
-      let name ← parseIdent env
-      if !env.opts.allowDoubleUnderscoreNames && containsDoubleUnderscore (env.tm.byIDStr name) then failHere
-      let flags ← if (← peek1) == IDQuestion then do skip; pure (flags0 ||| FlagsClassy) else pure flags0
-      let implements ← if (← peek1) == IDImplements then do
-          skip
-          let l ← parseList env IDOpenParen (do
-            let (pkg, nm) ← parseQualifiedIdent env
-            pure (newTypeExpr 0 pkg nm .nil .nil .nil))
-          if l.length > MaxImplements then failHere
-          pure l
-        else pure []
-      let fields ← parseList env IDCloseParen (parseFieldNode1 env e t b 0)
-      let fields ← if (← peek1) == IDPlus then do
-          skip
-          if (← peek1) != IDOpenParen then failHere
-          let extra ← parseList env IDCloseParen (parseExtraFieldNode env e t b)
-          pure (fields ++ extra)
-        else pure fields
-      semicolon
-      pure (.mk KStruct flags 0 0 name line .nil .nil .nil implements fields [])
-    else failAtLine
-  else failAtLine
+  if k == IDUse then do skip; parseUseDecl env line
+  else if k == IDPub then do skip; parseVisibleDecl env e t b FlagsPublic line
+  else if k == IDPri then do skip; parseVisibleDecl env e t b 0 line
+  else throw (.at line)
 
 def parseFileLoop (env : Env) : Nat → List Node → P (List Node)
   | 0, _ => throw .stuck
